@@ -252,10 +252,12 @@ def compile_tu(tu, inc_hash):
         return binp, ""
     if os.path.exists(binp + ".err"):
         return None, open(binp + ".err").read()
-    srcp = os.path.join(bdir, key + ".cpp")
+    import threading as _th
+    srcp = os.path.join(bdir, key + f"_{os.getpid()}_{_th.get_ident()}.cpp")
     with open(srcp, "w") as fh:
         fh.write(tu["src"])
-    tmp = binp + f".tmp{os.getpid()}"
+    import threading
+    tmp = binp + f".tmp{os.getpid()}_{threading.get_ident()}"
     try:
         r = sh(flags + [srcp] + ([] if tu.get("syntax_only") else ["-o", tmp]), timeout=tu.get("compile_timeout", 900))
     except subprocess.TimeoutExpired:
